@@ -10,6 +10,8 @@ import (
 	"golang.org/x/tools/go/ssa"
 )
 
+var labelStats map[string]int
+
 type Decision struct {
 	Kind   byte     `json:"k"` // B branch, S sched, L select, T timer, C concretize, U unique, H harness choice, P pool
 	N      int      `json:"n"`
@@ -140,6 +142,42 @@ func (vm *VM) addPC(t *Term) {
 	vm.pc = append(vm.pc, t)
 }
 
+func literalVar(t *Term) *Term {
+	if t.op == OpVar && t.w == 0 {
+		return t
+	}
+	if t.op == OpBNot && t.args[0].op == OpVar {
+		return t.args[0]
+	}
+	return nil
+}
+
+func termMentions(t, v *Term, seen map[*Term]bool) bool {
+	if t == v {
+		return true
+	}
+	if seen[t] {
+		return false
+	}
+	seen[t] = true
+	for _, a := range t.args {
+		if termMentions(a, v, seen) {
+			return true
+		}
+	}
+	return false
+}
+
+func (vm *VM) pcMentions(v *Term) bool {
+	seen := map[*Term]bool{}
+	for _, p := range vm.pc {
+		if termMentions(p, v, seen) {
+			return true
+		}
+	}
+	return false
+}
+
 func (vm *VM) pcHas(t *Term) bool {
 	for _, p := range vm.pc {
 		if p == t {
@@ -190,11 +228,17 @@ func (g *G) branch(cond *Term, label string) bool {
 	if len(ex.trace) >= ex.cfg.MaxDepth {
 		panic(pathAbort{kind: "BUDGET", msg: fmt.Sprintf("decision depth %d exceeded", ex.cfg.MaxDepth)})
 	}
-	rt := vm.check(cond)
-	rf := vm.check(ncond)
-	ex.branchSolver += 2
-	tOK := rt != Unsat
-	fOK := rf != Unsat
+	var tOK, fOK bool
+	if v := literalVar(cond); v != nil && vm.lazyMode && !vm.pcMentions(v) {
+		// a fresh unconstrained boolean: both outcomes are feasible
+		tOK, fOK = true, true
+	} else {
+		rt := vm.check(cond)
+		rf := vm.check(ncond)
+		ex.branchSolver += 2
+		tOK = rt != Unsat
+		fOK = rf != Unsat
+	}
 	var d Decision
 	switch {
 	case tOK && fOK:
@@ -459,8 +503,21 @@ func (ex *Explorer) Run(runPath func() *PathResult) *Report {
 		if len(ex.trace) > ex.MaxTraceLen {
 			ex.MaxTraceLen = len(ex.trace)
 		}
+		if labelStats != nil {
+			for i := 0; i < ex.pos && i < len(ex.trace); i++ {
+				if ex.trace[i].N > 1 {
+					labelStats[ex.trace[i].Label]++
+				}
+			}
+		}
+		if ex.vm.lazyMode && res.Kind != "OK" && res.Kind != "ENGINE" && res.Kind != "INFEASIBLE" && res.Kind != "SKIP" {
+			// arbitrary-state exploration: panics, cut loops and unsupported constructs just end the path
+			ex.PathKinds[res.Kind]--
+			ex.PathKinds["CUT:"+res.Kind]++
+			res = &PathResult{Kind: "CUTPATH", Msg: res.Msg}
+		}
 		switch res.Kind {
-		case "OK":
+		case "OK", "CUTPATH":
 		case "INFEASIBLE":
 			ex.Infeasible++
 		case "SKIP":
